@@ -89,6 +89,17 @@ class Provenance(Interp):
         if not base:
             return NONE
         idx = unparse(node.slice)
+        if isinstance(node.slice, ast.Name):
+            # the name of a loop counter is a spelling: every loop / comprehension variable is written `i` in a term
+            lv = getattr(self, "_loop_vars", None)
+            if lv is None:
+                lv = set()
+                for nd in ast.walk(self.fi.node):
+                    if isinstance(nd, (ast.For, ast.comprehension)):
+                        lv |= {x.id for x in ast.walk(nd.target) if isinstance(x, ast.Name)}
+                self._loop_vars = lv
+            if node.slice.id in lv:
+                idx = "i"
         return frozenset(self._cap(f"{b}[{idx}]") for b in base)
 
     def _cap(self, s: str) -> str:
